@@ -21,12 +21,12 @@ import universe as U
 
 CONF = {
     "C04": dict(universes=["core", "c09", "c09b", "c09c", "c10c", "c10", "c11b", "c16"], probes=False, extra=False),
-    "C09": dict(universes=["c09", "c09b", "core", "c09c", "c09t"], probes=False, extra=False),
+    "C09": dict(universes=["c09", "c09b", "core", "c09c", "c09t", "c09d"], probes=False, extra=False),
     "C10": dict(universes=["c10", "c10b", "core", "c10c", "c10d", "c10e"], probes=False, extra=False),
     "C11": dict(universes=["c11", "c11b", "core", "c16", "c09t"], probes=False, extra=False),
     "C12": dict(universes=["core", "c12x", "c10", "c11", "c12y"], probes=True, extra=True),
     "C16": dict(universes=["core", "c16", "c11"], probes=True, extra=True),
-    "C17": dict(universes=["core", "c18", "c09", "c09b", "c09c", "qv"], probes=True, extra=False),
+    "C17": dict(universes=["core", "c18", "c09", "c09b", "c09c", "qv", "c09d"], probes=True, extra=False),
     "C18": dict(universes=["c18", "core"], probes=True, extra=True),
 }
 
@@ -119,6 +119,11 @@ def build_histories(prop, uname, u, n_edges, rnd, conf):
                 hs.append(v)
     else:
         total = 0
+    if prop == "C12":
+        # a share of the histories end in a store issued while every LMDB reader slot is taken
+        for h in hs[::5]:
+            if h and h[-1]["k"] == "store":
+                h[-1] = dict(h[-1], k="sstore")
     if conf["extra"]:
         # sprinkle extra-table operations into a third of the histories
         for h in hs[::3]:
@@ -140,6 +145,10 @@ def geometry_histories(rnd, tier):
         hs.append([S_(i), RO, S_(j), RO, S_(25)])
         hs.append([S_(i), RB, S_(j), RB, RO])
         hs.append([S_(25), S_(i), RO, S_(j)])
+    for big in (26, 27):                                                        # contents of 2^16 - 1 and more than 2^16 bytes
+        i = rnd.randint(1, 25)
+        hs.append([S_(i), S_(big), RO, S_(25), S_(big)])
+        hs.append([S_(big), S_(i), RB, RO])
     for _ in range(12 if tier == "quick" else 120):
         a, b, c = rnd.sample(range(1, 26), 3)
         hs.append([S_(a), S_(b), R_(a), R_(b), RO, S_(c), RO, S_(a)])             # drained by removal
@@ -289,7 +298,8 @@ def run(prop, tier, seed, replay=None):
         uname = "r%d" % useed
         upath = S.universe_path(uname)
         u = json.load(open(upath))
-        hs = [S.random_history(u, rnd, n_rops, p_alt=0.05 if prop == "C04" else 0.0) for _ in range(n_rh)]
+        hs = [S.random_history(u, rnd, n_rops, p_alt=0.05 if prop == "C04" else 0.0, p_starved=0.06 if prop == "C12" else 0.0)
+              for _ in range(n_rh)]
         if conf["extra"]:
             for h in hs[::2]:
                 for _ in range(3):
